@@ -54,7 +54,7 @@ def _compare(t, model, keys, keytype, out, step):
     try:
         n = len(t)
         if n != len(model):
-            bad("len", "len()=%r, model has %d keys %r" % (n, len(model), sorted(model)))
+            bad("len", "len()=%r, model has %d keys %r" % (n, len(model), sorted(model, key=repr)))
     except Exception as e:  # noqa
         bad("raises", "len raised %r" % (e,))
     # traversals
@@ -66,9 +66,9 @@ def _compare(t, model, keys, keytype, out, step):
         it = [(tuple(k), v) for k, v in list(iter(t))]
         if sorted(it, key=repr) != sorted(model.items(), key=repr):
             bad("iter", "iter()=%r model=%r" % (sorted(it, key=repr), sorted(model.items(), key=repr)))
-        pre = sorted(tuple(k) for k in list(t.prefixes()))
-        if pre != sorted(model):
-            bad("prefixes", "prefixes()=%r model=%r" % (pre, sorted(model)))
+        pre = sorted((tuple(k) for k in list(t.prefixes())), key=repr)
+        if pre != sorted(model, key=repr):
+            bad("prefixes", "prefixes()=%r model=%r" % (pre, sorted(model, key=repr)))
         vals = sorted(t.values(), key=repr)
         if vals != sorted(model.values(), key=repr):
             bad("values", "values()=%r model=%r" % (vals, sorted(model.values(), key=repr)))
@@ -169,7 +169,7 @@ def eval_history(case):
     ops = case["ops"]
     keytype = case.get("keytype", "list")
     every = case.get("every_step", False)
-    alphabet = sorted({tok for k, _ in ops for tok in k} | {"a"})
+    alphabet = sorted({tok for k, _ in ops for tok in k} | {"a"}, key=repr)
     alphabet_q = alphabet[:3] + ["~"] if case.get("fresh_token", True) else alphabet
     maxlen = case.get("qlen", 4)
     keys = _queries(None, alphabet_q, maxlen)
@@ -265,7 +265,7 @@ def _exhaustive(acc, shard, nshards, seed, tier, length=3):
 
 
 def _hyp_strategy(tier):
-    alphabets = st.sampled_from([["a", "b"], ["a", "b", "c", "d"], ["www", "com", "fr", "x"], ["é", "a", ""]])
+    alphabets = st.sampled_from([["a", "b"], ["a", "b", "c", "d"], ["www", "com", "fr", "x"], ["é", "a", ""], ["a", 0, 1, "b"], [0, "0", 1.5, True]])
 
     @st.composite
     def hist(draw):
@@ -274,7 +274,7 @@ def _hyp_strategy(tier):
         val = st.one_of(st.none(), st.integers(0, 3), st.sampled_from(["v", "", False, 0]))
         ops = draw(st.lists(st.tuples(key, val), min_size=1, max_size=60 if tier == "thorough" else 30))
         keytype = draw(st.sampled_from(["list", "tuple", "str"]))
-        if keytype == "str" and any(len(tok) != 1 for tok in alpha):
+        if keytype == "str" and any(not isinstance(tok, str) or len(tok) != 1 for tok in alpha):
             keytype = "tuple"
         return {"kind": "trie_history", "ops": [[list(k), v] for k, v in ops], "keytype": keytype,
                 "every_step": True, "qlen": 3}
